@@ -591,7 +591,11 @@ func TestC05(t *testing.T) {
 			var objs []*av.V
 			var exps []interface{}
 			var descs []string
-			plans := map[string]c05Plan{} // one definition per class on a stream
+			plans := map[string]c05Plan{} // one definition per class on a stream ...
+			// ... except in one message of three, where every instance may come with a definition of its own: the
+			// same class defined again with other fields or another order (two writers behind one connection, a
+			// class reloaded on the peer). Each instance is built from exactly the definition its tag denotes.
+			redefine := rapid.IntRange(0, 2).Draw(rt, "classesDefinedAgain") == 0
 			for i := 0; i < ninst; i++ {
 				typ := zoo.FTypes[rapid.IntRange(0, len(zoo.FTypes)-1).Draw(rt, "type")]
 				g := zoo.NewG(rt, cfg)
@@ -601,6 +605,10 @@ func TestC05(t *testing.T) {
 					rt.Skip("unrepresentable")
 				}
 				plan, ok := plans[typ.Name()]
+				if ok && redefine && rapid.Bool().Draw(rt, "definedAgain") {
+					ok = false
+					r.Label("random:class-defined-again-on-the-stream")
+				}
 				if !ok {
 					nf := typ.NumField()
 					perm := rapid.Permutation(seq(nf)).Draw(rt, "perm")
